@@ -97,3 +97,19 @@ impl From<usize> for ConnectionId {
         ConnectionId(value)
     }
 }
+
+#[cfg(feature = "verif")]
+impl ConnectionId {
+    /// Verification hook: raw value.
+    pub fn verif_raw(&self) -> usize {
+        self.0
+    }
+}
+
+#[cfg(feature = "verif")]
+impl SubstreamId {
+    /// Verification hook: raw value.
+    pub fn verif_raw(&self) -> usize {
+        self.0
+    }
+}
